@@ -1165,4 +1165,176 @@ Section Univ.
           rewrite !add_seats_add_dict. apply IH; [exact Ha1|apply add_dict_nodup, Hsn|apply add_dict_perm; assumption|exact Hacc1].
       + subst st'. split; [apply Forall2_rev, Hacc|]. split; [exact Hsn|]. split; [exact Hsp|reflexivity].
   Qed.
+
+  (* ------------------------------------------------------------ the initial allocation *)
+  Lemma fold_adds {A} (g : alloc -> A -> alloc) (I0 : A -> list instr) l :
+    (forall a x, g a x = adds a (I0 x)) -> forall a, fold_left g l a = adds a (flat_map I0 l).
+  Proof.
+    intros Hg. induction l as [|x l IH]; intros a; simpl; [reflexivity|].
+    rewrite IH, Hg. unfold adds. rewrite fold_left_app. reflexivity.
+  Qed.
+
+  Definition ia_direct (bw : ballot * Q) : list instr :=
+    match fst bw with IP c :: _ => [(Some c, fst bw, snd bw)] | _ => [] end.
+  Definition ia_shared (cands : list C) (bw : ballot * Q) : list instr :=
+    match fst bw with IS _ :: _ => mb_instrs (next_after (fst bw) cands) (fst bw) (snd bw) | _ => [] end.
+  Definition ia_base (cands : list C) : alloc := map (fun c => (Some c, @nil (ballot * Q))) cands.
+
+  Lemma initial_allocation_adds votes :
+    initial_allocation votes =
+      adds (adds (ia_base (all_ranked_candidates votes)) (flat_map ia_direct votes)) (flat_map (ia_shared (all_ranked_candidates votes)) votes).
+  Proof.
+    unfold initial_allocation. cbv zeta. fold (ia_base (all_ranked_candidates votes)).
+    rewrite (fold_adds _ (ia_shared (all_ranked_candidates votes))).
+    - rewrite (fold_adds _ ia_direct); [reflexivity|].
+      intros a [b w]. unfold ia_direct. simpl. destruct b as [|[c|l] t]; reflexivity.
+    - intros a [b w]. unfold ia_shared. simpl. destruct b as [|[c|l] t]; try reflexivity. apply move_ballot_adds.
+  Qed.
+
+  Lemma ia_base_get cands k : alloc_get (ia_base cands) k = match k with Some c => if cmem c cands then Some [] else None | None => None end.
+  Proof.
+    unfold ia_base. induction cands as [|x l IH]; simpl; [destruct k; reflexivity|].
+    destruct k as [c|]; simpl; [|exact IH]. unfold ceqb. destruct (Pos.eqb c x); [reflexivity|exact IH].
+  Qed.
+  Lemma ia_base_wf cands : NoDup cands -> awf (ia_base cands).
+  Proof.
+    intros Hn. unfold ia_base, awf, akeys. split.
+    - rewrite map_map. simpl. clear -Hn. induction Hn as [|x l Hx _ IH]; simpl; constructor; [|exact IH].
+      intros Hi. apply in_map_iff in Hi. destruct Hi as (y & [= ->] & Hy). tauto.
+    - apply Forall_forall. intros x Hx. apply in_map_iff in Hx. destruct Hx as (c & <- & _). apply pwf_nil.
+  Qed.
+  Lemma ia_base_perm cands cands' : NoDup cands -> Permutation cands cands' -> aeq (ia_base cands) (ia_base cands').
+  Proof.
+    intros Hn Hp. apply aeq_lookups; [apply ia_base_wf, Hn|apply ia_base_wf; eapply Permutation_NoDup; eassumption|].
+    intros k. rewrite !ia_base_get. destruct k as [c|]; [|reflexivity]. rewrite (cmem_perm _ _ _ Hp). reflexivity.
+  Qed.
+
+  Lemma perm_to_mod (l l' : list instr) : Permutation l l' -> perm_mod instr RI l l'.
+  Proof. intros H. exists l'. split; [exact H|]. clear. induction l'; constructor; [split; reflexivity|assumption]. Qed.
+
+  Theorem initial_allocation_perm votes votes' cands cands' :
+    (forall b, In b (map fst votes) -> In b U) -> Permutation votes votes' ->
+    cands = all_ranked_candidates votes -> cands' = all_ranked_candidates votes' -> NoDup cands -> Permutation cands cands' ->
+    aeq (initial_allocation votes) (initial_allocation votes').
+  Proof.
+    intros HinU Hp -> -> Hcn Hcp. rewrite !initial_allocation_adds.
+    assert (Hok1 : Forall okI (flat_map ia_direct votes)).
+    { apply Forall_forall. intros i Hi. apply in_flat_map in Hi. destruct Hi as ([b w] & Hin & Hi). unfold ia_direct in Hi. simpl in Hi.
+      destruct b as [|[c|l] t]; [destruct Hi| |destruct Hi]. destruct Hi as [<-|[]]. unfold okI. simpl. apply HinU. apply in_map_iff. exists (IP c :: t, w). auto. }
+    assert (Hok2 : Forall okI (flat_map (ia_shared (all_ranked_candidates votes)) votes)).
+    { apply Forall_forall. intros i Hi. apply in_flat_map in Hi. destruct Hi as ([b w] & Hin & Hi). unfold ia_shared in Hi. simpl in Hi.
+      destruct b as [|[c|l] t]; [destruct Hi|destruct Hi|]. apply mb_instrs_key in Hi. destruct Hi as [_ Hb]. unfold okI. rewrite Hb.
+      apply HinU. apply in_map_iff. exists (IS l :: t, w). auto. }
+    apply adds_perm_mod; [|exact Hok2|].
+    - rewrite (flat_map_ext (ia_shared (all_ranked_candidates votes')) (ia_shared (all_ranked_candidates votes))).
+      + apply perm_to_mod, Permutation_flat_map, Hp.
+      + intros [b w]. unfold ia_shared. simpl. destruct b as [|[c|l] t]; try reflexivity.
+        rewrite (next_after_ext (IS l :: t) (all_ranked_candidates votes') (all_ranked_candidates votes)); [reflexivity|].
+        intros x. apply cmem_perm, Permutation_sym, Hcp.
+    - apply adds_perm_mod; [apply perm_to_mod, Permutation_flat_map, Hp|exact Hok1|apply ia_base_perm; assumption].
+  Qed.
 End Univ.
+
+(* ---------------------------------------------------------------- all_ranked_candidates as a set *)
+Definition addc (acc : list C) (c : C) : list C := if cmem c acc then acc else acc ++ [c].
+Definition arc_inner (votes : list (ballot * Q)) (acc : list C) (i : nat) : list C :=
+  fold_left (fun acc (bw : ballot * Q) => match nth_error (fst bw) i with
+                                         | Some it => fold_left addc (members it) acc
+                                         | None => acc end) votes acc.
+Definition maxlen (votes : list (ballot * Q)) : nat := fold_left (fun m (bw : ballot * Q) => Nat.max m (length (fst bw))) votes O.
+
+Lemma arc_unfold votes : all_ranked_candidates votes = fold_left (arc_inner votes) (seq 0 (maxlen votes)) [].
+Proof. reflexivity. Qed.
+
+Lemma addc_spec acc c : NoDup acc -> NoDup (addc acc c) /\ forall x, In x (addc acc c) <-> In x acc \/ x = c.
+Proof.
+  intros Hn. unfold addc. destruct (cmem c acc) eqn:E.
+  - apply cmem_In in E. split; [exact Hn|]. intros x. split; [auto|intros [H | ->]; assumption].
+  - split; [apply nodup_snoc; [exact Hn|intros H; apply cmem_In in H; congruence]|].
+    intros x. rewrite in_app_iff. simpl. intuition.
+Qed.
+Lemma fold_addc_spec l : forall acc, NoDup acc -> NoDup (fold_left addc l acc) /\ forall x, In x (fold_left addc l acc) <-> In x acc \/ In x l.
+Proof.
+  induction l as [|c l IH]; intros acc Hn; simpl; [split; [exact Hn|intros x; tauto]|].
+  destruct (addc_spec acc c Hn) as [H1 H2]. destruct (IH _ H1) as [H3 H4]. split; [exact H3|].
+  intros x. rewrite H4, H2. intuition.
+Qed.
+
+Definition ranks_at (votes : list (ballot * Q)) (i : nat) (x : C) : Prop :=
+  exists bw it, In bw votes /\ nth_error (fst bw) i = Some it /\ In x (members it).
+
+Lemma arc_inner_spec i votes : forall acc, NoDup acc ->
+  NoDup (arc_inner votes acc i) /\ forall x, In x (arc_inner votes acc i) <-> In x acc \/ ranks_at votes i x.
+Proof.
+  unfold arc_inner, ranks_at. induction votes as [|bw votes IH]; intros acc Hn; simpl.
+  - split; [exact Hn|]. intros x. split; [auto|intros [H|(bw & it & [] & _)]; exact H].
+  - destruct (nth_error (fst bw) i) as [it|] eqn:E.
+    + destruct (fold_addc_spec (members it) acc Hn) as [H1 H2]. destruct (IH _ H1) as [H3 H4]. split; [exact H3|].
+      intros x. rewrite H4, H2. split.
+      * intros [[H|H]|(bw0 & it0 & Hb & Hi & Hx)]; [left; exact H|right; exists bw, it; auto|right; exists bw0, it0; auto].
+      * intros [H|(bw0 & it0 & [<-|Hb] & Hi & Hx)]; [auto| |right; exists bw0, it0; auto].
+        rewrite E in Hi. injection Hi as <-. auto.
+    + destruct (IH _ Hn) as [H3 H4]. split; [exact H3|]. intros x. rewrite H4. split.
+      * intros [H|(bw0 & it0 & Hb & Hi & Hx)]; [left; exact H|right; exists bw0, it0; auto].
+      * intros [H|(bw0 & it0 & [<-|Hb] & Hi & Hx)]; [auto|congruence|right; exists bw0, it0; auto].
+Qed.
+
+Lemma arc_outer_spec votes l : forall acc, NoDup acc ->
+  NoDup (fold_left (arc_inner votes) l acc) /\
+  forall x, In x (fold_left (arc_inner votes) l acc) <-> In x acc \/ exists i, In i l /\ ranks_at votes i x.
+Proof.
+  induction l as [|i l IH]; intros acc Hn; simpl.
+  - split; [exact Hn|]. intros x. split; [auto|intros [H|(i & [] & _)]; exact H].
+  - destruct (arc_inner_spec i votes acc Hn) as [H1 H2]. destruct (IH _ H1) as [H3 H4]. split; [exact H3|].
+    intros x. rewrite H4, H2. split.
+    + intros [[H|H]|(j & Hj & H)]; [auto|right; exists i; auto|right; exists j; auto].
+    + intros [H|(j & [<-|Hj] & H)]; [auto|auto|right; exists j; auto].
+Qed.
+
+Lemma maxlen_bound votes bw : In bw votes -> (length (fst bw) <= maxlen votes)%nat.
+Proof.
+  unfold maxlen. assert (H : forall l m, (m <= fold_left (fun m (bw : ballot * Q) => Nat.max m (length (fst bw))) l m)%nat /\
+    forall bw, In bw l -> (length (fst bw) <= fold_left (fun m (bw : ballot * Q) => Nat.max m (length (fst bw))) l m)%nat).
+  { induction l as [|y l IH]; intros m; simpl; [split; [lia|intros ? []]|].
+    destruct (IH (Nat.max m (length (fst y)))) as [H1 H2]. split; [lia|]. intros bw0 [<-|Hb]; [lia|apply H2, Hb]. }
+  apply H.
+Qed.
+
+Theorem arc_spec votes : NoDup (all_ranked_candidates votes) /\
+  forall x, In x (all_ranked_candidates votes) <-> exists i, ranks_at votes i x.
+Proof.
+  rewrite arc_unfold. destruct (arc_outer_spec votes (seq 0 (maxlen votes)) [] (NoDup_nil _)) as [H1 H2]. split; [exact H1|].
+  intros x. rewrite H2. split.
+  - intros [[]|(i & _ & H)]. exists i. exact H.
+  - intros (i & H). right. exists i. split; [|exact H]. destruct H as (bw & it & Hb & Hi & _).
+    apply in_seq. split; [lia|]. pose proof (maxlen_bound votes bw Hb).
+    assert (i < length (fst bw))%nat by (apply nth_error_Some; congruence). simpl. eapply Nat.lt_le_trans; eassumption.
+Qed.
+
+Theorem arc_perm votes votes' : Permutation votes votes' -> Permutation (all_ranked_candidates votes) (all_ranked_candidates votes').
+Proof.
+  intros Hp. destruct (arc_spec votes) as [N1 S1]. destruct (arc_spec votes') as [N2 S2].
+  apply NoDup_Permutation; [exact N1|exact N2|]. intros x. rewrite S1, S2.
+  split; intros (i & bw & it & Hb & H); exists i, bw, it; (split; [|exact H]).
+  - apply (Permutation_in _ Hp Hb).
+  - apply (Permutation_in _ (Permutation_sym Hp) Hb).
+Qed.
+
+(* ---------------------------------------------------------------- the count on a permuted profile *)
+Definition ballots_distinct (votes : list (ballot * Q)) : Prop :=
+  forall b b', In b (map fst votes) -> In b' (map fst votes) -> ballot_eqb b b' = true -> b = b'.
+
+Theorem stv_perm cf votes votes' n prev prev' caps :
+  ballots_distinct votes -> Permutation votes votes' -> keysnd prev -> Permutation prev prev' ->
+  trace_rel (stv cf votes n prev caps) (stv cf votes' n prev' caps).
+Proof.
+  intros Hd Hp Hpn Hpp. unfold stv.
+  pose proof (arc_perm votes votes' Hp) as Hcp. destruct (arc_spec votes) as [Hcn _].
+  rewrite <- (Permutation_length Hcp).
+  assert (Ht : Qred (fold_left Qplus (map snd votes') 0) = Qred (fold_left Qplus (map snd votes) 0)).
+  { apply Qred_complete. rewrite !fold_left_Qplus. apply Qplus_comp; [reflexivity|].
+    assert (Hm : Permutation (map snd votes') (map snd votes)) by (apply Permutation_map, Permutation_sym, Hp).
+    clear -Hm. induction Hm; simpl; try ring; [rewrite IHHm; reflexivity|rewrite IHHm1; exact IHHm2]. }
+  rewrite Ht. apply (run_perm (map fst votes) Hd); try assumption; [|constructor].
+  apply (initial_allocation_perm (map fst votes) Hd votes votes' _ _ (fun b H => H) Hp eq_refl eq_refl Hcn Hcp).
+Qed.
